@@ -15,6 +15,7 @@ Three families of cases (case['fam']):
              consumed and resumed iter_CUs, get_DIE_from_lut_entry, get_DIE_from_refaddr) followed by get_CU_containing at
              EVERY offset 0..size-1 in several orders on the used and on fresh objects.
 """
+import io
 import random
 
 from vf.enc import dwarf as D
@@ -67,8 +68,67 @@ def run_case(ctx, case):
         run_names(ctx, case)
     elif fam == 'units':
         run_units(ctx, case)
+    elif fam == 'farunits':
+        run_farunits(ctx, case)
     else:
         raise ValueError('unknown family %r' % fam)
+
+
+# ---------------------------------------------------------------------------
+# (d) units beyond 4 GiB: a .debug_info held by a sparse stream (only the unit headers and top entries exist, the rest reads as zeros,
+#     i.e. as null entries); a 64-bit-format unit crosses offset 2**32 and two more units follow it
+
+def run_farunits(ctx, case):
+    from vf.enc.sparse import SparseStream
+    from elftools.dwarf.dwarfinfo import DWARFInfo, DebugSectionDescriptor, DwarfConfig
+    le, A = case['le'], case['addr_size']
+
+    def header(fmt, ver, length):
+        h = D.initial_length(le, fmt, length) + D.u(le, 2, ver)
+        O = 4 if fmt == 32 else 8
+        return h + (bytes([1, A]) + D.u(le, O, 0) if ver >= 5 else D.u(le, O, 0) + bytes([A])) + b'\x01'
+    chunks, exp, pos = {}, [], 0
+    for fmt, ver, length in case['units']:
+        chunks[pos] = header(fmt, ver, length)
+        size = length + (4 if fmt == 32 else 12)
+        exp.append((pos, size))
+        pos += size
+    total = pos
+    abbrev = b'\x01\x11\x00\x00\x00\x00'
+
+    def mk():
+        kw = {arg: None for arg in D.SECTION_ARGS.values()}
+        kw['debug_info_sec'] = DebugSectionDescriptor(stream=SparseStream(total, chunks), name='.debug_info', global_offset=0, size=total, address=0)
+        kw['debug_abbrev_sec'] = DebugSectionDescriptor(stream=io.BytesIO(abbrev), name='.debug_abbrev', global_offset=0, size=len(abbrev), address=0)
+        return DWARFInfo(config=DwarfConfig(little_endian=le, machine_arch='x64', default_address_size=A), **kw)
+    offs = [o for o, _ in exp]
+    try:
+        di = mk()
+        got = [cu.cu_offset for cu in di.iter_CUs()]
+        if got != offs:
+            ctx.fail('farunits|iter_CUs', 'units at %r, iterated %r' % (offs, got), case)
+        for order in (list(range(len(exp))), list(reversed(range(len(exp)))), case.get('perm') or [2, 0, 3, 1]):
+            for fresh in (False, True):
+                d2 = mk() if fresh else di
+                for i in order:
+                    o, size = exp[i % len(exp)]
+                    cu = d2.get_CU_at(o)
+                    if cu.cu_offset != o or cu.size != size:
+                        ctx.fail('farunits|get_CU_at', 'get_CU_at(%#x): unit at %#x size %#x, expected size %#x' % (o, cu.cu_offset, cu.size, size), case)
+                    for q in (o, o + 1, o + size // 2, o + size - 1):
+                        c2 = d2.get_CU_containing(q)
+                        if c2.cu_offset != o:
+                            ctx.fail('farunits|get_CU_containing', 'offset %#x lies in the unit at %#x, got the unit at %#x (%s object, order %r)' % (
+                                q, o, c2.cu_offset, 'fresh' if fresh else 'used', order), case)
+                    top = cu.get_top_DIE()
+                    if top.tag != 'DW_TAG_compile_unit' or top.offset != o + len(chunks[o]) - 1:
+                        ctx.fail('farunits|top-DIE', 'unit at %#x: %r at %#x' % (o, top.tag, top.offset), case)
+        if [cu.cu_offset for cu in di.iter_CUs()] != offs:
+            ctx.fail('farunits|iter_CUs|after-lookups', 'units at %r' % (offs,), case)
+    except Exception as e:  # noqa
+        ctx.fail_exc('farunits', e, case)
+    ctx.count('fam.farunits')
+    ctx.case(('farunits', le, A, tuple(map(tuple, case['units']))), True, dict(case))
 
 
 # ---------------------------------------------------------------------------
@@ -433,6 +493,8 @@ def run_names(ctx, case):
         ctx.count('nm.names.%s' % ('0' if nn == 0 else '1-5' if nn <= 5 else '6-15' if nn <= 15 else '16+'))
         if any(not s['names'] for s in sets):
             ctx.count('nm.has-empty-set')
+        if any(s.get('slack') for s in sets[:-1]):
+            ctx.count('nm.slack-behind-terminator')
         if sets and nn == 0:
             ctx.count('nm.all-empty')
         if any(any(ord(c) > 127 for c in n) for s in sets for _, n in s['names']):
@@ -967,6 +1029,8 @@ def gen_name_sets(ch, dup, used):
             off = ch.choice([0xb, 0xc, 1, info_len - 1, ch.int(1, info_len - 1), ch.int(1, info_len - 1)])
             names.append([off, name])
         sets.append({'info': pos, 'info_len': info_len, 'names': names})
+        if ch.bool(0.25):
+            sets[-1]['slack'] = ch.choice([b'\0', b'\0\0\0\0', b'\xaa\xbb\xcc', ch.bytes(1, 8)])
         pos += info_len + ch.choice([0, 0, ch.int(0, 0x1000)])
         if ch.bool(0.1) and pos + 0x1000000 < (1 << 32) - 0x2000000:
             pos = ch.int(pos, (1 << 32) - 0x2000000)
@@ -1193,12 +1257,16 @@ def sweep(tier):
             cases.append(case)
     for k in range(20 if tier == 'quick' else 200):
         cases.append(gen_units(RndChooser(133000 + k), tier))
+    # (d) unit offsets and extents beyond 2**31 / 2**32
+    for k, big in enumerate(((1 << 32) + 0x100, (1 << 31) + 0x40, (1 << 32) - 0x30, (1 << 33) + 5)):
+        cases.append({'fam': 'farunits', 'le': bool(k % 2), 'addr_size': (8, 4)[k % 2],
+                      'units': [[32, 4, 0x20], [64, (4, 5, 3, 2)[k % 4], big], [64, 5, 0x40], [32, (3, 5)[k % 2], 0x30]], 'perm': [(k + j * 3) % 4 for j in range(4)]})
     return cases
 
 
 def floors(ctx):
     c = ctx.counters
-    need = ['fam.aranges', 'fam.names', 'fam.units', 'ar.le', 'ar.be', 'ar.addr.4', 'ar.addr.8', 'ar.addr.mixed', 'ar.has-empty-set', 'ar.all-empty',
+    need = ['fam.aranges', 'fam.names', 'fam.units', 'fam.farunits', 'nm.slack-behind-terminator', 'ar.le', 'ar.be', 'ar.addr.4', 'ar.addr.8', 'ar.addr.mixed', 'ar.has-empty-set', 'ar.all-empty',
             'ar.no-sets', 'ar.adjacent-different-units', 'ar.range-at-0', 'ar.range-to-max', 'ar.unsorted-set', 'ar.zero-length-range', 'ar.sets.8',
             'ar.q.first', 'ar.q.last', 'ar.q.inner', 'ar.q.end', 'ar.q.before', 'ar.q.outside',
             'nm.le', 'nm.be', 'nm.sets.0', 'nm.sets.6', 'nm.has-empty-set', 'nm.all-empty', 'nm.non-ascii', 'nm.non-bmp', 'nm.duplicate-family',
